@@ -19,6 +19,8 @@
  *                                                            return short (mode 0) / nothing (mode 1)
  *   c04_faults own <file> <garbagefile>                   stream-ownership scenarios
  *   c04_faults tempfault <file>                           mkstemp / fdopen failing inside make_temp_file
+ *   c04_faults mutate <entry> <file> <off:val[,off:val...]>...     bytes replaced (corrupt archives), load + test
+ *   c04_faults companion <module> <companion> <len>...             companion file missing (-1) / a directory (-2) / cut
  *   c04_faults rescan <mode|cflags|scan> <playing> <file> <kfrom> <kto> <stride>   every allocator call of a rescan fails
  *   c04_faults closefault <load|test> <path|file|cb> <file>   the j-th fclose of the call reports failure (for every j);
  *                                                            cb: the close callback returns -1
@@ -247,13 +249,14 @@ void __wrap_free(void *p)
 	__real_free(p);
 }
 
-static int fc_count, fc_fired, fc_double, nclosed;
+static int fc_count, fc_fired, fc_double, nclosed, fo_count;
 
 static void win_begin(int fail_at)
 {
 	win_gen++;
 	win_count = 0;
 	fc_count = 0;
+	fo_count = 0;
 	fc_fired = 0;
 	fc_double = 0;
 	nclosed = 0;
@@ -311,9 +314,12 @@ int __wrap_fclose(FILE *f)
 	return rc;
 }
 
+static int fo_count;		/* fopen calls inside the current window */
 FILE *__wrap_fopen(const char *path, const char *mode)
 {
 	FILE *f = __real_fopen(path, mode);
+	if (win_on)
+		fo_count++;
 	if (f != NULL)
 		closed_forget(f);
 	return f;
@@ -2003,6 +2009,8 @@ static int cmd_closefault(int argc, char **argv)
  * xmp_scan_module call libxmp_scan_sequences, which realloc()s p->scan (grow to mod->len entries, scan,
  * shrink to the number of sequences) and may malloc a backup in compare_vblank_scan.  Every allocator
  * call of the rescan is made to fail in turn.
+ *   c04_faults mutate <entry> <file> <off:val[,off:val...]>...     bytes replaced (corrupt archives), load + test
+ *   c04_faults companion <module> <companion> <len>...             companion file missing (-1) / a directory (-2) / cut
  *   c04_faults rescan <mode|cflags|scan> <playing 0|1> <file> <kfrom> <kto> <stride> */
 /* digest of what an untouched context (old mode) renders at the point where run_rescan_case plays on */
 static uint64_t rescan_reference(struct source *src, int playing)
@@ -2238,6 +2246,122 @@ static int cmd_rescan(int argc, char **argv)
 	return 0;
 }
 
+/* structure-aware corruption: the file with a few bytes replaced (not shortened), load and test through one entry
+ * point, full accounting (blocks, descriptors, temp files) per call.
+ *   c04_faults mutate <entry> <file> <spec> [<spec>...]     spec = off:val[,off:val...]  (decimal) */
+static int cmd_mutate(int argc, char **argv)
+{
+	struct source src, full;
+	int i, entry;
+	char tpath[4096];
+	const char *scratch = getenv("C04_SCRATCH");
+	if (argc < 5)
+		return 2;
+	entry = parse_entry(argv[2]);
+	src_init(&full, entry, argv[3]);
+	printf("begin op=mutate entry=%s file=%s\n", argv[2], argv[3]);
+	for (i = 4; i < argc; i++) {
+		unsigned char *copy = (unsigned char *)__real_malloc(full.size > 0 ? full.size : 1);
+		const char *q = argv[i];
+		int ok = 1;
+		memcpy(copy, full.data, full.size);
+		while (*q) {
+			long off, val;
+			char *e;
+			off = strtol(q, &e, 10);
+			if (*e != ':') { ok = 0; break; }
+			val = strtol(e + 1, &e, 10);
+			if (off >= 0 && off < full.size)
+				copy[off] = (unsigned char)val;
+			q = *e == ',' ? e + 1 : e;
+			if (*e != ',' && *e != 0) { ok = 0; break; }
+		}
+		if (!ok) {
+			__real_free(copy);
+			continue;
+		}
+		src = full;
+		src.data = copy;
+		if (entry == E_PATH || entry == E_FILE) {
+			FILE *o;
+			snprintf(tpath, sizeof(tpath), "%s/mut-%d.bin", scratch ? scratch : "/tmp", (int)getpid());
+			o = fopen(tpath, "wb");
+			if (o == NULL) {
+				__real_free(copy);
+				continue;
+			}
+			fwrite(copy, 1, full.size, o);
+			fclose(o);
+			src.path = tpath;
+		}
+		printf("case mut=%s\n", argv[i]);
+		if (entry != E_FILE)	/* xmp_load_module_from_file does not unpack: only the test does */
+			run_case(OP_LOAD, &src, -1, 1);
+		run_case(OP_TEST, &src, -1, 1);
+		if (entry == E_PATH || entry == E_FILE)
+			unlink(tpath);
+		__real_free(copy);
+	}
+	printf("end\n");
+	free(full.data);
+	return 0;
+}
+
+/* multi-file formats: the module is intact, its COMPANION file (Startrekker .nt, MFP smp.*, external MED / MOD /
+ * STM instruments) is missing (-1), a directory (-2), or cut to <len> bytes; load by path, descriptors counted.
+ *   c04_faults companion <module> <companion> <len> [<len>...] */
+static int fo_count;
+static int cmd_companion(int argc, char **argv)
+{
+	struct source src;
+	unsigned char *cdata;
+	long csize = 0, len;
+	int i;
+	if (argc < 5)
+		return 2;
+	src_init(&src, E_PATH, argv[2]);
+	cdata = read_file(argv[3], &csize);
+	if (cdata == NULL) {
+		printf("skip cannot read companion %s\n", argv[3]);
+		return 0;
+	}
+	printf("begin op=companion entry=path file=%s companion=%s\n", argv[2], argv[3]);
+	for (i = 4; i < argc; i++) {
+		FILE *o;
+		len = atol(argv[i]);
+		unlink(argv[3]);
+		rmdir(argv[3]);
+		if (len == -2) {
+			mkdir(argv[3], 0755);
+		} else if (len >= 0) {
+			if (len > csize)
+				len = csize;
+			o = fopen(argv[3], "wb");
+			if (o == NULL)
+				continue;
+			fwrite(cdata, 1, len, o);
+			fclose(o);
+		}
+		printf("case clen=%ld\n", len);
+		run_case(OP_LOAD, &src, -1, 1);
+		printf("companion clen=%ld fopens=%d\n", len, fo_count);
+	}
+	/* put the companion back */
+	unlink(argv[3]);
+	rmdir(argv[3]);
+	{
+		FILE *o = fopen(argv[3], "wb");
+		if (o != NULL) {
+			fwrite(cdata, 1, csize, o);
+			fclose(o);
+		}
+	}
+	printf("end\n");
+	free(cdata);
+	free(src.data);
+	return 0;
+}
+
 /* F8: xmp_start_smix twice / end_smix leaves counts */
 static int cmd_smix(int argc, char **argv)
 {
@@ -2287,6 +2411,10 @@ int main(int argc, char **argv)
 		rc = cmd_smix(argc, argv);
 	else if (!strcmp(argv[1], "rescan"))
 		rc = cmd_rescan(argc, argv);
+	else if (!strcmp(argv[1], "mutate"))
+		rc = cmd_mutate(argc, argv);
+	else if (!strcmp(argv[1], "companion"))
+		rc = cmd_companion(argc, argv);
 	else if (!strcmp(argv[1], "closefault"))
 		rc = cmd_closefault(argc, argv);
 	else if (!strcmp(argv[1], "smixfaults"))
